@@ -118,6 +118,10 @@ impl Encoder<OutboundIn> for ServerAeadCodec {
     type Error = anyhow::Error;
 
     fn encode(&mut self, item: OutboundIn, dst: &mut BytesMut) -> Result<(), Self::Error> {
+        // an empty datagram has no representation of its own: an empty chunk is the end-of-stream mark
+        if matches!(&item, OutboundIn::Udp((content, _)) if content.is_empty()) {
+            return Ok(());
+        }
         if let DecodeState::Ready(ref request_header, ref mut session, _) = self.decode_state {
             match self.encode_state {
                 EncodeState::Init => {
